@@ -78,6 +78,23 @@ def rule_golay(repo: Repo, rep: Report, thorough: bool) -> int:
         except Unfoldable:
             ext_col = None
     if ext_col is None:
+        # unlisted spelling: run the statements of the `if extended:` block up to the definition of the column on the
+        # literal matrix (own arithmetic)
+        from ..frag import FragRaise, FragReturn, run_fragment
+
+        pre = []
+        for s_ in ext_stmts[0].body:
+            pre.append(s_)
+            if isinstance(s_, ast.Assign) and unparse(s_.targets[0]) == "last_column":
+                break
+        try:
+            env = run_fragment(pre, {"parity_submatrix": [[int(x) for x in r] for r in lit]}) if col_expr is not None else {}
+            ext_col = env.get("last_column")
+        except (Unfoldable, FragRaise, FragReturn):
+            ext_col = None
+        if not (isinstance(ext_col, list) and len(ext_col) == 12 and all(isinstance(c, (int, float)) for c in ext_col)):
+            ext_col = None
+    if ext_col is None:
         rep.undecided("GOLAY", fi, "extension column", f"expression not evaluable: {unparse(col_expr) if col_expr is not None else '?'}")
         return n + 1
     rows24 = [r + [int(c) % 2] for r, c in zip(rows, ext_col)]
@@ -421,12 +438,43 @@ def rule_cyclic_layout(repo: Repo, rep: Report) -> int:
     n += 1
     init = repo.func(CYC, "CyclicCodeEncoder.__init__")
     ps = [s for s in stmts_of(init.body) if isinstance(s, ast.Assign) and unparse(s.targets[0]) == "parity_submatrix"]
-    if len(ps) != 1:
-        rep.undecided("CYCLIC-LAYOUT", init, "parity_submatrix", f"{len(ps)} definitions")
+    if not ps:
+        rep.undecided("CYCLIC-LAYOUT", init, "parity_submatrix", "no definition found")
         return n + 1
     v = ps[0].value
-    sliced_ok = classify(v, ["generator_matrix[:, 0:n - k]", "generator_matrix[:, :n - k]", "generator_matrix[:, 0:self._redundancy]", "generator_matrix[:, :self._redundancy]"])[0] == OK
-    if sliced_ok and ok:
+    sliced_ok = len(ps) == 1 and classify(v, ["generator_matrix[:, 0:n - k]", "generator_matrix[:, :n - k]", "generator_matrix[:, 0:self._redundancy]", "generator_matrix[:, :self._redundancy]"])[0] == OK
+    if not sliced_ok and ok:
+        # unlisted spelling: evaluate what reaches super().__init__ on a sample matrix with distinct entries, for the
+        # 'left', 'right' and index-list information sets (own arithmetic)
+        from ..constfold import Folder, Unfoldable
+        from ..frag import FragRaise, FragReturn, run_fragment
+
+        sup = [c for c in ast.walk(init.node) if isinstance(c, ast.Call) and unparse(c.func) == "super().__init__"]
+        arg = next((k.value for c in sup for k in c.keywords if k.arg == "parity_submatrix"), None)
+        top = [s_ for s_ in init.body if any(isinstance(x, ast.Name) and x.id == "parity_submatrix" and isinstance(x.ctx, ast.Store) for x in ast.walk(s_))]
+        kk, nn = 3, 7
+        M = [[10 * i + j for j in range(nn)] for i in range(kk)]
+        want = [row[: nn - kk] for row in M]
+        bad = und = None
+        for info in ("left", "right", [0, 2, 4]):
+            try:
+                if arg is None:
+                    raise Unfoldable("super().__init__(parity_submatrix=...) not found")
+                env = run_fragment(top, {"generator_matrix": M, "k": kk, "n": nn, "information_set": info}, {"self._dimension": kk, "self._length": nn, "self._redundancy": nn - kk})
+                got = Folder({k_: v_ for k_, v_ in env.items() if k_ != "__attrs__"}, env["__attrs__"]).fold(arg)
+            except (Unfoldable, FragRaise, FragReturn) as exc:
+                und = f"information_set={info!r}: {exc}"
+                break
+            if got != want:
+                bad = f"for information_set={info!r} the parity submatrix handed to the systematic encoder is columns {[[e % 10 for e in r] for r in got][0] if isinstance(got, list) and got and isinstance(got[0], list) else got} of the systematic generator instead of [0, n-k) in order"
+                break
+        if bad:
+            rep.violation("CYCLIC-LAYOUT", init, f"parity_submatrix = {unparse(ps[-1].value)}", bad + ": the encoder's words are no longer the multiples of g (not closed under cyclic shifts)", node=ps[-1])
+        elif und:
+            rep.undecided("CYCLIC-LAYOUT", init, f"parity_submatrix = {unparse(ps[-1].value)}", f"not evaluable ({und})", node=ps[-1])
+        else:
+            rep.ok("CYCLIC-LAYOUT", init, f"parity_submatrix = {unparse(ps[-1].value)}", "unlisted spelling; evaluates to the parity columns [0, n-k) in order for the left, right and index-list information sets", node=ps[-1])
+    elif sliced_ok and ok:
         rep.ok("CYCLIC-LAYOUT", init, f"parity_submatrix = {unparse(v)}", "the parity columns [0, n-k) for every information set: the produced words are the multiples of g (cyclically shifted for the 'left' layout)", node=ps[0])
     elif ok and ("k:n" in unparse(v).replace(" ", "") or isinstance(v, ast.IfExp)):
         rep.violation("CYCLIC-LAYOUT", init, f"parity_submatrix = {unparse(v)}", "a slice other than columns [0, n-k) mixes identity and parity columns of the systematic generator: the encoder's words are not the multiples of g (not cyclic, smaller distance)", node=ps[0])
